@@ -1,15 +1,21 @@
 // C03 instrumentation shared by the life_* harness families (kernel.cpp and driver.cpp of each; contains no tetl code).
 //
 // Tracked<TAG,FLAV> is an element type whose every special member reports to one global ledger (vf_led, defined in the
-// driver TU, external linkage, declared here):
-//   * for an address inside a *registered region* (the exact-size block an owner object or a source array lives in) the
-//     ledger keeps a shadow byte per 4-byte slot: 0 = no live object starts here, TAG = a live Tracked<TAG,...> starts
-//     here. A constructor asserts the slot is dead and marks it live; assignment / comparison / read / destructor assert
-//     it is live with the right tag; the destructor marks it dead.
-//   * for any other address (temporaries, parameters, by-value copies) an in-object state word (LIVE / MOVED / DEAD) is
-//     checked on every use, and out_live counts constructions minus destructions of such objects.
-// The driver checks after every kernel call that exactly the slots of the owner's current elements are live, that no
-// temporary is left alive, and after the owner's destructor that nothing is alive and constructions == destructions.
+// driver TU, external linkage, declared here) and keeps an in-object state word:
+//   st == LG_LIVE+TAG   a live object          st == LG_MOVED+TAG   a live, moved-from object        anything else: no object
+//   * every constructor writes LG_LIVE+TAG and counts a construction;
+//   * assignment / comparison / read / being copied or moved from assert that the word is a live mark of the right TAG;
+//   * the destructor asserts the same, writes LG_DEAD (volatile: the store must survive dead-store elimination) and
+//     counts a destruction.
+// The driver registers the exact-size blocks that hold owners and source arrays (*regions*). Registration assumes that no
+// 4-byte word of the still raw, symbolic block is a live mark (6 reserved patterns out of 2^32 per word); payload values are
+// drawn outside the reserved patterns as well. After every kernel call the driver takes a census of every region:
+//   * lg_expect: exactly the words where the state of the owner's current elements must be are live marks (of the right
+//     TAG), no other word of the block is - so no element is dead, and nothing is alive outside [begin, end);
+//   * lg_quiet: constructions - destructions == live marks in all regions. A constructor that ran over a live object, a
+//     leaked temporary, a missing destroy or a bitwise copy of a live object all break this equation;
+//   * use of a dead object / double destroy fail the assertion in the special member itself.
+// After the owner's destructor: no live mark anywhere and constructions == destructions.
 // Include after "vf.h" (kernels: after the tetl headers).
 #ifndef LIFE_TRACKED_H
 #define LIFE_TRACKED_H
@@ -19,71 +25,41 @@
 #endif
 #define LG_REGIONS 4
 #ifndef LG_SLOTS
-#define LG_SLOTS 16 // 4-byte slots per region: regions are at most 64 bytes
+#define LG_SLOTS 16 // 4-byte words per region: regions are at most 64 bytes
 #endif
-#define LG_LIVE 0x4c495645u
-#define LG_MOVED 0x4d4f5645u
+#define LG_LIVE 0x4c495640u  // + TAG (1..3)
+#define LG_MOVED 0x4d4f5640u // + TAG
 #define LG_DEAD 0x44454144u
 #define LG_MOVED_V 0x4d4f5600 // payload left in a moved-from element
 struct Ledger {
     unsigned char* base[LG_REGIONS];
     uint64_t bytes[LG_REGIONS];
-    uint8_t shadow[LG_REGIONS][LG_SLOTS];
     uint32_t nctor, ndtor; // every construction / destruction, wherever the object lives
-    int32_t out_live;      // objects outside all regions: constructed minus destroyed
     uint32_t ncopy, nmove, ncassign, nmassign;
     uint32_t bad; // number of illegal transitions seen (each one also fails its own vf_assert)
 };
 extern "C" {
 extern Ledger vf_led; // defined in driver.cpp
 }
-// region lookup, hand-unrolled (no loop for the solver to unwind); returns the slot or null for an outside address
-static inline uint8_t* lg_slot(void const* p)
-{
-    uint64_t a = (uint64_t)p;
-#define LG_TRY(R)                                                                                                        \
-    {                                                                                                                    \
-        uint64_t off = a - (uint64_t)vf_led.base[R];                                                                     \
-        if (vf_led.base[R] != nullptr && off < vf_led.bytes[R]) return &vf_led.shadow[R][off >> 2];                      \
-    }
-    LG_TRY(0) LG_TRY(1) LG_TRY(2) LG_TRY(3)
-#undef LG_TRY
-    return nullptr;
-}
+static inline bool lg_is_mark(uint32_t w) { return (w >= LG_LIVE + 1 && w <= LG_LIVE + 3) || (w >= LG_MOVED + 1 && w <= LG_MOVED + 3); }
 static inline void lg_bad(bool ok, char const* what)
 {
     if (!ok) vf_led.bad++;
     vf_assert(ok, what);
 }
-static inline void lg_ctor(void const* p, uint32_t* st, uint8_t tag)
+static inline void lg_ctor(void const*, uint32_t* st, uint32_t tag)
 {
-    uint8_t* s = lg_slot(p);
-    if (s) {
-        lg_bad(*s == 0, "C03: a constructor runs on storage that already holds a live object");
-        *s = tag;
-    } else {
-        vf_led.out_live++;
-    }
-    *st = LG_LIVE;
+    *st = LG_LIVE + tag;
     vf_led.nctor++;
 }
-static inline void lg_use(void const* p, uint32_t st, uint8_t tag)
+static inline void lg_use(void const*, uint32_t st, uint32_t tag)
 {
-    uint8_t* s = lg_slot(p);
-    if (s) lg_bad(*s == tag, "C03: a member function, assignment or read runs on storage that holds no live object");
-    else lg_bad(st == LG_LIVE || st == LG_MOVED, "C03: a member function, assignment or read runs on a temporary that is not alive");
+    lg_bad(st == LG_LIVE + tag || st == LG_MOVED + tag, "C03: a member function, assignment, comparison or copy/move source is storage that holds no live object");
 }
-static inline void lg_dtor(void const* p, uint32_t* st, uint8_t tag)
+static inline void lg_dtor(void const*, uint32_t* st, uint32_t tag)
 {
-    uint8_t* s = lg_slot(p);
-    if (s) {
-        lg_bad(*s == tag, "C03: a destructor runs on storage that holds no live object (double destroy / never constructed)");
-        *s = 0;
-    } else {
-        lg_bad(*st == LG_LIVE || *st == LG_MOVED, "C03: a destructor runs on a temporary that is not alive (double destroy)");
-        vf_led.out_live--;
-    }
-    *st = LG_DEAD;
+    lg_bad(*st == LG_LIVE + tag || *st == LG_MOVED + tag, "C03: a destructor runs on storage that holds no live object (double destroy / never constructed)");
+    *(uint32_t volatile*)st = LG_DEAD;
     vf_led.ndtor++;
 }
 
@@ -101,7 +77,7 @@ struct Tracked {
     {
         lg_use(this, st, TAG);
         v = s.v;
-        st = LG_LIVE;
+        st = LG_LIVE + TAG;
         return *this;
     }
     Tracked(Tracked const& o) noexcept
@@ -118,7 +94,7 @@ struct Tracked {
     {
         lg_use(&o, o.st, TAG);
         lg_ctor(this, &st, TAG);
-        if (&o != this) { o.v = LG_MOVED_V; o.st = LG_MOVED; }
+        if (&o != this) { o.v = LG_MOVED_V; o.st = LG_MOVED + TAG; }
         vf_led.nmove++;
     }
     Tracked& operator=(Tracked const& o) noexcept
@@ -127,7 +103,7 @@ struct Tracked {
         lg_use(&o, o.st, TAG);
         lg_use(this, st, TAG);
         v = o.v;
-        st = LG_LIVE;
+        st = LG_LIVE + TAG;
         vf_led.ncassign++;
         return *this;
     }
@@ -136,11 +112,11 @@ struct Tracked {
     {
         lg_use(&o, o.st, TAG);
         lg_use(this, st, TAG);
-        if (&o != this) { v = o.v; st = LG_LIVE; o.v = LG_MOVED_V; o.st = LG_MOVED; }
+        if (&o != this) { v = o.v; st = LG_LIVE + TAG; o.v = LG_MOVED_V; o.st = LG_MOVED + TAG; }
         vf_led.nmassign++;
         return *this;
     }
-    ~Tracked() { lg_dtor(this, &st, TAG); v = (int)LG_DEAD; }
+    ~Tracked() { lg_dtor(this, &st, TAG); *(int volatile*)&v = (int)LG_DEAD; }
     int get() const noexcept { lg_use(this, st, TAG); return v; }
     friend bool operator==(Tracked const& x, Tracked const& y) noexcept { return x.get() == y.get(); }
     friend bool operator!=(Tracked const& x, Tracked const& y) noexcept { return x.get() != y.get(); }
@@ -171,34 +147,58 @@ static inline void split(uint64_t v, F f)
 // the history leaves carry one witness instead
 template <unsigned MAX, typename F>
 static inline void split_q(uint64_t v, F f) { split<MAX, false>(v, f); }
-// ---- driver side: region registration and the checks made between kernel calls
+// ---- driver side: region registration and the censuses taken between kernel calls
+static inline uint32_t lg_word(unsigned r, unsigned i)
+{
+    unsigned char const* b = vf_led.base[r] + uint64_t(i) * 4;
+    return uint32_t(b[0]) | uint32_t(b[1]) << 8 | uint32_t(b[2]) << 16 | uint32_t(b[3]) << 24;
+}
+// block [base, base+bytes) becomes region r; its raw (symbolic) bytes are assumed to contain no live mark
 extern "C" __attribute__((noinline)) void lg_register(unsigned r, void* base, uint64_t bytes)
 {
-    vf_assert(bytes <= uint64_t(LG_SLOTS) * 4, "harness: the region fits the shadow array (LG_SLOTS)");
+    vf_assert(bytes <= uint64_t(LG_SLOTS) * 4 && bytes % 4 == 0, "harness: the region fits the census (LG_SLOTS words)");
     vf_led.base[r] = (unsigned char*)base;
     vf_led.bytes[r] = bytes;
-    for (unsigned i = 0; i < LG_SLOTS; i++) vf_led.shadow[r][i] = 0;
+    for (unsigned i = 0; i < LG_SLOTS; i++)
+        if (uint64_t(i) * 4 < bytes) vf_assume(!lg_is_mark(lg_word(r, i)));
 }
-// region r holds exactly n live objects of `tag`, esz bytes apart, the first at byte offset off; every other slot is dead
+// region r holds exactly n live objects of `tag`, esz bytes apart, the first at byte offset off; no other word is a live mark
 extern "C" __attribute__((noinline)) void lg_expect(unsigned r, uint64_t off, unsigned n, unsigned esz, unsigned tag)
 {
     uint8_t want[LG_SLOTS];
     for (unsigned i = 0; i < LG_SLOTS; i++) want[i] = 0;
-    for (unsigned k = 0; k < n; k++) want[(off + uint64_t(k) * esz) >> 2] = (uint8_t)tag;
+    for (unsigned k = 0; k < n; k++) want[(off + uint64_t(k) * esz + 4) >> 2] = 1; // the state word follows the payload
     for (unsigned i = 0; i < LG_SLOTS; i++) {
-        if (want[i]) vf_assert(vf_led.shadow[r][i] == want[i], "C03: an element of the owner is not a live object (never constructed, or destroyed while still owned)");
-        else vf_assert(vf_led.shadow[r][i] == 0, "C03: a live object is left outside the owner's elements (leak: constructed but never destroyed)");
+        if (uint64_t(i) * 4 >= vf_led.bytes[r]) break;
+        uint32_t w = lg_word(r, i);
+        if (want[i]) vf_assert(w == LG_LIVE + tag || w == LG_MOVED + tag, "C03: an element of the owner is not a live object (never constructed, or destroyed while still owned)");
+        else vf_assert(!lg_is_mark(w), "C03: a live object is left outside the owner's elements (leak: constructed but never destroyed)");
     }
 }
-static inline void lg_quiet() // between kernel calls: no temporary is alive, no illegal transition was seen
+extern "C" __attribute__((noinline)) unsigned lg_marks() // live marks in all regions
 {
-    vf_assert(vf_led.out_live == 0, "C03: every temporary / parameter object created during the call was destroyed exactly once");
+    unsigned c = 0;
+    for (unsigned r = 0; r < LG_REGIONS; r++)
+        for (unsigned i = 0; i < LG_SLOTS; i++)
+            if (vf_led.base[r] != nullptr && uint64_t(i) * 4 < vf_led.bytes[r] && lg_is_mark(lg_word(r, i))) c++;
+    return c;
+}
+static inline void lg_quiet() // between kernel calls
+{
+    vf_assert(vf_led.nctor - vf_led.ndtor == lg_marks(), "C03: constructions - destructions == live objects in the owners (a temporary leaked, an object was constructed over a live one, destroyed objects are missing, or a live object was copied bitwise)");
     vf_assert(vf_led.bad == 0, "C03: no illegal lifetime transition");
 }
-static inline void lg_balanced() // at the very end
+static inline void lg_balanced() // at the very end, every owner destroyed
 {
     vf_assert(vf_led.nctor == vf_led.ndtor, "C03: constructions == destructions once every owner is destroyed");
-    vf_assert(vf_led.out_live == 0 && vf_led.bad == 0, "C03: nothing alive outside, no illegal transition");
+    vf_assert(lg_marks() == 0 && vf_led.bad == 0, "C03: nothing is alive, no illegal transition");
+}
+// payload values avoid the reserved state patterns (so a payload word is never mistaken for a live mark by the census)
+static inline uint32_t lg_nd_payload()
+{
+    uint32_t x = vf_nd_u32();
+    vf_assume(!lg_is_mark(x));
+    return x;
 }
 #endif
 #endif
